@@ -1,9 +1,35 @@
 //! Replays concrete witnesses against the real Qrlew code through its public API.
 //! usage: qx_replay <name> '<json>'  -> prints `QX-REPLAY violated|holds|panicked <detail>`
-use qrlew::data_type::{self, value::{self, Value, Variant as _}, DataType, Variant as _};
+use qrlew::data_type::{self, value::{self, Value, Variant as _}, DataType, Variant as _, function::Function as _};
+use qrlew::{builder::{Ready, With}, expr::{AggregateColumn, Expr}, relation::{Relation, Reduce, Schema, Variant as _}};
+use qrlew::differential_privacy::{DpParameters, aggregates::DpAggregatesParameters};
+use qrlew::privacy_unit_tracking::PrivacyUnit;
 use serde_json::Value as J;
 
 fn i(j: &J, k: &str) -> i64 { j[k].as_i64().unwrap_or_else(|| j[k].as_str().unwrap().parse().unwrap()) }
+
+fn f(j: &J, k: &str) -> f64 { j[k].as_f64().unwrap() }
+
+/// plain real-number reading of the arithmetic subset of Expr used by the recombination expressions
+fn eval(e: &Expr, row: &[(&str, f64)]) -> Result<f64, String> {
+    use qrlew::expr::function::Function as F;
+    match e {
+        Expr::Column(c) => { let n = c.last().unwrap().to_string(); row.iter().find(|(k, _)| *k == n).map(|(_, v)| *v).ok_or(format!("no column {}", n)) }
+        Expr::Value(v) => match v { Value::Float(x) => Ok(**x), Value::Integer(x) => Ok(**x as f64), other => Err(format!("value {}", other)) },
+        Expr::Function(f) => {
+            let a: Vec<f64> = f.arguments().iter().map(|x| eval(x, row)).collect::<Result<_, _>>()?;
+            match f.function() {
+                F::Plus => Ok(a[0] + a[1]), F::Minus => Ok(a[0] - a[1]), F::Multiply => Ok(a[0] * a[1]), F::Divide => Ok(a[0] / a[1]),
+                F::Greatest => Ok(a[0].max(a[1])), F::Least => Ok(a[0].min(a[1])), F::Sqrt => Ok(a[0].sqrt()), F::Pow => Ok(a[0].powf(a[1])),
+                F::Gt => Ok((a[0] > a[1]) as i32 as f64), F::GtEq => Ok((a[0] >= a[1]) as i32 as f64), F::Lt => Ok((a[0] < a[1]) as i32 as f64), F::LtEq => Ok((a[0] <= a[1]) as i32 as f64),
+                F::Case => Ok(if a[0] != 0. { a[1] } else { a[2] }), F::And => Ok(((a[0] != 0.) && (a[1] != 0.)) as i32 as f64), F::Or => Ok(((a[0] != 0.) || (a[1] != 0.)) as i32 as f64),
+                F::Opposite => Ok(-a[0]), F::Abs => Ok(a[0].abs()), F::CastAsInteger => Ok(a[0].round()), F::CastAsFloat => Ok(a[0]),
+                other => Err(format!("function {} not in the replay evaluator", other)),
+            }
+        }
+        other => Err(format!("expression {} not in the replay evaluator", other)),
+    }
+}
 
 fn run(name: &str, j: &J) -> Result<bool, String> {
     match name {
@@ -14,6 +40,45 @@ fn run(name: &str, j: &J) -> Result<bool, String> {
             let fb = Value::integer(b).as_data_type(&DataType::float()).map_err(|e| e.to_string())?;
             println!("  {} -> {}, {} -> {}", a, fa, b, fb);
             Ok(a == b || fa != fb)
+        }
+        // C09: with zero noise the VAR / STD output expression must equal E[x^2] - E[x]^2 of the helper sums
+        "c09_var_recombination" | "c09_std_recombination" => {
+            let (n, sx, sq) = (f(j, "count"), f(j, "sum"), f(j, "sum_square"));
+            let is_var = name == "c09_var_recombination";
+            let table: Relation = Relation::table().name("table").schema(
+                Schema::builder()
+                    .with(("a", DataType::float_interval(-100., 100.)))
+                    .with((PrivacyUnit::privacy_unit(), DataType::integer_range(1..=100)))
+                    .with((PrivacyUnit::privacy_unit_weight(), DataType::float_interval(0., 1.)))
+                    .build()).size(100).build();
+            let parameters = DpAggregatesParameters::from_dp_parameters(DpParameters::from_epsilon_delta(1., 1e-3), 1.);
+            let agg = if is_var { AggregateColumn::var("a") } else { AggregateColumn::std("a") };
+            let reduce: Reduce = Relation::reduce().name("reduce_relation").with(("out".to_string(), agg)).input(table).build();
+            let (dp_relation, _ev) = reduce.differentially_private_aggregates(parameters).map_err(|e| e.to_string())?.into();
+            // walk down through renaming Maps until the recombination expression is found
+            let mut rel: &Relation = &dp_relation;
+            let mut col = "out".to_string();
+            let expr: Expr = loop {
+                match rel {
+                    Relation::Map(m) => {
+                        let e = m.named_exprs().into_iter().find(|(nm, _)| *nm == col).map(|(_, e)| e.clone()).ok_or("column lost")?;
+                        match &e {
+                            Expr::Column(c) => { col = c.last().unwrap().to_string(); rel = m.input(); }
+                            _ => break e,
+                        }
+                    }
+                    _ => return Err("recombination expression not found".into()),
+                }
+            };
+            // (Expr::value cannot be used: it panics on every float division — see the C18 finding)
+            let row: Vec<(&str, f64)> = vec![("_COUNT_a", n), ("_SUM_a", sx), ("_SUM_SQUARE_a", sq)];
+            println!("  expr = {}", expr);
+            let g = eval(&expr, &row)?;
+            let n1 = if n > 1. { n } else { 1. };
+            let var = (sq / n1 - (sx / n1) * (sx / n1)).max(0.);
+            let want = if is_var { var } else { var.sqrt() };
+            println!("  expr = {}\n  on count={} sum={} sum_square={}: got {} want {}", expr, n, sx, sq, g, want);
+            Ok((g - want).abs() <= 1e-9 * (1. + want.abs()))
         }
         _ => Err(format!("unknown replay `{}`", name)),
     }
